@@ -80,7 +80,7 @@ theorem up_offer_lazy {P : Par} (hP : P.Ok) {w : W} (hq : QuietLazy P w) (frame 
     · show w.up ++ upOfEvents ([] ++ _) = _
       rw [hq.up]; rfl
     · left
-      refine ⟨rfl, rfl, ?_⟩
+      refine ⟨rfl, rfl, 1, Nat.le_refl _, by omega, ?_⟩
       have hs : Client.sChar ((w.cs.c.outpkt.seqno + 1) % 8) = (w.cs.c.outpkt.seqno + 1) % 8 := sChar_small _ (by omega)
       show (((newPacket w.cs.c frame).outpkt.seqno).toNat : Int) = _
       have : (newPacket w.cs.c frame).outpkt.seqno = (w.cs.c.outpkt.seqno + 1) % 8 := hs
